@@ -47,12 +47,6 @@ Variable e : henv.
    Where the text is silent the definition follows the code and [silent] marks the pair:
    bool offered where float is expected. *)
 Fixpoint conforms (t : ty) (v : val) {struct t} : bool :=
-  let fix zip_all (ts : list ty) (vs : list val) {struct ts} : bool :=
-    match ts, vs with
-    | a :: ts', x :: vs' => conforms a x && zip_all ts' vs'
-    | [], [] => true
-    | _, _ => false
-    end in
   match t with
   | TScalar SInt => match v with XInt _ => true | _ => false end
   | TScalar SBool => match v with XBool _ => true | _ => false end
@@ -65,7 +59,7 @@ Fixpoint conforms (t : ty) (v : val) {struct t} : bool :=
   | TEnum c => match v with XEnum d _ => pystr_eqb c d | _ => false end
   | TNewType a => conforms a v
   | TUnion ts => existsb (fun a => conforms a v) ts
-  | TTuple ts => match v with XTuple l => zip_all ts l | _ => false end
+  | TTuple ts => match v with XTuple l => Nat.eqb (length ts) (length l) && zip_all (fun a x => conforms a x) ts l | _ => false end
   | TTupleVar a => match v with XTuple l => forallb (conforms a) l | _ => false end
   | TGen CFrozenset [a] => match v with XFset l => forallb (conforms a) l | _ => false end
   | TGen CSequence [a] =>
